@@ -27,3 +27,14 @@ package token
 //@   use node_sizes, node_map_children
 //@   ensures [C06,C10] typed: result2 == nil ==> genericVerified(decodeWith(dagcbor.Decode, bytes(data)), result0)
 //@   ensures [C08] cid: result2 == nil ==> result1 == ucanCid(bytes(data))
+//@
+//@ func DecodeReader
+//@   inline
+//@   requires r != nil && decFn != nil && modelsWF()
+//@   assigns anything
+//@ func FromSealedReader
+//@   requires r != nil && modelsWF()
+//@   use node_sizes, node_map_children
+//@   ensures [C18] nofault: result2 == nil ==> failed(r) == old(failed(r))
+//@   ensures [C06,C08,C18] cid: result2 == nil ==> (exists x string :: delivered(r) == old(delivered(r)) ++ x && result1 == ucanCid(x) && genericVerified(decodeWith(dagcbor.Decode, x), result0))
+//@   assigns anything
